@@ -664,7 +664,7 @@ Qed.
 Lemma run_cb_q w c : QE w -> QE (run_cb w c).
 Proof.
   intros H. unfold run_cb. destruct (wcrash w); auto. destruct c.
-  - apply resume_q; auto.
+  - destruct (_ <? _)%nat; [apply resume_q; auto|apply crashw_q; auto].
   - apply QE_setk; [rewrite check_ne; lia|exact H].
   - destruct (res_trig_get _ _) as [[k0 r0]|] eqn:E; auto with qdb; apply upd_node_q; apply QE_setk; [rewrite (res_trig_get_ne _ _ _ _ E); lia|exact H].
   - destruct (res_trig_put _ _) as [[k0 r0]|] eqn:E; auto with qdb; apply upd_node_q; apply QE_setk; [rewrite (res_trig_put_ne _ _ _ _ E); lia|exact H].
